@@ -72,6 +72,7 @@ func (w *responseWriter) WriteHeader(s int) {
 		// A before function has panicked so the status has never been sent, the next
 		// call (e.g. made by the Recovery) must still be able to send one.
 		w.beforePanicked = false
+		w.beforeFuncs = nil // The remaining ones must not fire while the panic is being handled.
 		w.writeHeaderOnce = sync.Once{}
 	}
 
